@@ -1,19 +1,67 @@
 // +build verif
 
 // Contracts for the rtv verifier (/verif). Comment-only; compiled only with -tags verif.
+// Syntax: see /verif/DESIGN.md section 2.2. Keyed by function name and loop ordinal, never by line.
 
 package reftable
+
+// ---------------------------------------------------------------------------------------------
+// record.go: varints, keys, record values
+// ---------------------------------------------------------------------------------------------
 
 //@ func getVarInt
 //@   results val, n
 //@   props C18
+//@   pure
 //@   nopanic
 //@   ensures n == -1 || (1 <= n && n <= len(buf))
 //@   loop 1 invariant 0 <= ptr && ptr < len(buf)
 //@   loop 1 decreases len(buf) - ptr
 
-//@ func putVarInt
-//@   props C01
+//@ func decodeKey
+//@   props C18
 //@   nopanic
-//@   ensures ok ==> 1 <= n && n <= 10 && n <= len(buf)
-//@   loop 1 invariant 0 <= i && i <= 8
+//@   ensures ok ==> 0 < n && n <= len(buf)
+//@   ensures !ok ==> n == 0
+
+//@ func decodeString
+//@   props C18
+//@   nopanic
+//@   ensures ok ==> 0 < n && n <= len(buf)
+
+//@ func decodeRestartKey
+//@   props C18
+//@   nopanic
+
+//@ func (*RefRecord).decode
+//@   props C18
+//@   requires hashSize == 20 || hashSize == 32
+//@   nopanic
+//@   modifies r.ALLFIELDS
+//@   ensures ok ==> 0 < n && n <= len(buf)
+
+//@ func (*indexRecord).decode
+//@   props C18
+//@   nopanic
+//@   modifies r.ALLFIELDS
+//@   ensures ok ==> 0 < n && n <= len(buf)
+
+//@ func (*objRecord).decode
+//@   props C18
+//@   nopanic
+//@   modifies r.ALLFIELDS
+//@   ensures ok ==> 0 <= n && n <= len(buf)
+//@   loop 1 invariant len(r.Offsets) >= 1 && len(buf) <= old(len(buf))
+//@   loop 1 decreases count
+
+//@ func (*LogRecord).decodeKey
+//@   props C18
+//@   nopanic
+//@   modifies l.RefName, l.UpdateIndex
+
+//@ func (*LogRecord).decode
+//@   props C18
+//@   requires hashSize == 20 || hashSize == 32
+//@   nopanic
+//@   modifies l.ALLFIELDS
+//@   ensures ok ==> 0 <= n && n <= len(buf)
